@@ -591,6 +591,40 @@ func evalC20Wrap(f []string) Result {
 			direct = fail("wrap-order-reuse", "second Wrap with the same list: received by %v, the property demands %v", recv2, wantRecv)
 		}
 	}
+	// Wrap in two steps (route-specific middlewares first, common ones around them), for every
+	// split point: the request still passes m1..mn in order.  The caller's slices are its own:
+	// after each Wrap call the slice that was passed is overwritten with a foreign middleware,
+	// which must not show up in any handler built before.
+	for k := 0; direct == "ok" && k <= len(mws); k++ {
+		var evs3 []string
+		for _, m := range mws {
+			m.(*c20OrderMw).log = &evs3
+		}
+		foreign := &c20OrderMw{id: 99, log: &evs3}
+		h3 := http.HandlerFunc(func(http.ResponseWriter, *http.Request) { evs3 = append(evs3, "h") })
+		innerArgs := append([]httputil.Middleware{}, mws[k:]...)
+		inner := httputil.Wrap(h3, innerArgs...)
+		for i := range innerArgs {
+			innerArgs[i] = foreign
+		}
+		outerArgs := append([]httputil.Middleware{}, mws[:k]...)
+		outer := httputil.Wrap(inner, outerArgs...)
+		for i := range outerArgs {
+			outerArgs[i] = foreign
+		}
+		// a third handler built from the first one afterwards (it must not disturb `outer`)
+		_ = httputil.Wrap(inner, foreign)
+		outer.ServeHTTP(httptest.NewRecorder(), httptest.NewRequest(http.MethodGet, "/", nil))
+		var recv3 []string
+		for _, e := range evs3 {
+			if e[0] != 'x' {
+				recv3 = append(recv3, e)
+			}
+		}
+		if strings.Join(recv3, ",") != strings.Join(wantRecv, ",") {
+			direct = fail("wrap-order-nested", "Wrap(Wrap(h, m%d..), m1..m%d), argument slices overwritten afterwards: received by %v, the property demands %v", k+1, k, recv3, wantRecv)
+		}
+	}
 	class := "trivial-wrap"
 	if len(mws) >= 2 {
 		class = "wrap"
